@@ -19,7 +19,7 @@
      NV.CramRec.Container  build_container bookkeeping (io/writer/container.rs), Block::size and
                            write_block (io/writer/container/block.rs), record counters (io/writer.rs) *)
 From Coq Require Import List NArith ZArith.
-From NV Require Import CramRec.Features CramRec.FeaturesProofs CramRec.FeaturesTotal CramRec.FeaturesMissing CramRec.Container CramRec.ContainerProofs CramRec.ContainerItf8 CramRec.Mates CramRec.MatesProofs CramRec.MatesChain CramRec.MatesWriter CramRec.MatesLoop CramRec.MatesBytes CramRec.MatesBytesProofs CramRec.SliceHeader CramRec.SliceHeaderProofs CramRec.File CramRec.FileProofs CramRec.FileRender CramRec.FileNames CramRec.FileNamesProofs CramRec.FeaturesStop CramRec.FeaturesStopProofs.
+From NV Require Import CramRec.Features CramRec.FeaturesProofs CramRec.FeaturesTotal CramRec.FeaturesMissing CramRec.Container CramRec.ContainerProofs CramRec.ContainerItf8 CramRec.Mates CramRec.MatesProofs CramRec.MatesChain CramRec.MatesWriter CramRec.MatesLoop CramRec.MatesBytes CramRec.MatesBytesProofs CramRec.SliceHeader CramRec.SliceHeaderProofs CramRec.File CramRec.FileProofs CramRec.FileRender CramRec.FileNames CramRec.FileNamesProofs CramRec.FeaturesStop CramRec.FeaturesStopProofs CramRec.SliceBlocks.
 Import ListNotations.
 Open Scope N_scope.
 
@@ -1035,3 +1035,64 @@ Example c07_features_stop_witness :
   roundtrip_stop default_sm file_ex_ref [65;0;65;67;71] [30;30;30;30;30] [(KS, 2); (KM, 3)] 5 = RInvalidInput /\
   roundtrip_stop default_sm file_ex_ref [65;65;0;67;71] [30;30;30;30;30] [(KM, 1); (KI, 2); (KM, 2)] 5 = RInvalidInput.
 Proof. vm_compute. repeat split; reflexivity. Qed.
+
+
+(* ------------------------------------------------------------------------------------------------
+   block_count / block_content_ids of a slice header (NV.CramRec.SliceBlocks mirrors build_blocks /
+   build_slice of io/writer/container/slice.rs and write_block_count / write_block_content_ids).
+   `bufs` = the (content id, buffer length) pairs of the external data writers in the ITERATION ORDER
+   of the writer's HashMap, which is arbitrary: every statement holds for any order. *)
+
+(* block_count = the number of blocks that follow the slice header = 1 + non-empty buffers *)
+Theorem c07_slice_block_count_is_blocks_written : forall core_len bufs,
+  sb_count bufs = sb_lenN (sb_blocks core_len bufs) /\ sb_count bufs = 1 + sb_lenN (sb_ext bufs).
+Proof. intros. split; [apply sb_count_is_block_count | apply sb_count_value]. Qed.
+Print Assumptions c07_slice_block_count_is_blocks_written.
+
+(* the header lists exactly the content ids of those blocks, in their order; core (type 5, id 0)
+   first, then external blocks (type 4) *)
+Theorem c07_slice_content_ids_are_block_ids : forall core_len bufs,
+  sb_ids bufs = map sd_id (sb_blocks core_len bufs) /\
+  map sd_type (sb_blocks core_len bufs) = sb_type_core :: repeat sb_type_ext (length (sb_ext bufs)).
+Proof. intros. split; [apply sb_ids_are_block_ids | apply sb_block_types]. Qed.
+Print Assumptions c07_slice_content_ids_are_block_ids.
+
+(* no empty external block is written; an id is listed iff it is the core id or its buffer is non-empty *)
+Theorem c07_slice_external_blocks_nonempty : forall core_len bufs d,
+  In d (sb_blocks core_len bufs) -> sd_type d = sb_type_ext -> sd_raw d <> 0%N.
+Proof. exact sb_external_blocks_nonempty. Qed.
+Print Assumptions c07_slice_external_blocks_nonempty.
+
+Theorem c07_slice_content_id_listed_iff : forall bufs id,
+  In id (sb_ids bufs) <-> id = sb_core_id \/ exists len, In (id, len) bufs /\ len <> 0%N.
+Proof. exact sb_id_listed_iff. Qed.
+Print Assumptions c07_slice_content_id_listed_iff.
+
+(* HashMap keys are pairwise different and none is 0: the content ids of a slice are pairwise different *)
+Theorem c07_slice_content_ids_distinct : forall bufs,
+  NoDup (map fst bufs) -> ~ In sb_core_id (map fst bufs) -> NoDup (sb_ids bufs).
+Proof. exact sb_ids_nodup. Qed.
+Print Assumptions c07_slice_content_ids_distinct.
+
+(* the HashMap's iteration order only permutes the external ids *)
+Theorem c07_slice_blocks_order_irrelevant : forall bufs bufs',
+  Permutation.Permutation bufs bufs' ->
+  sb_count bufs = sb_count bufs' /\
+  Permutation.Permutation (sb_ids bufs) (sb_ids bufs') /\
+  hd_error (sb_ids bufs) = Some sb_core_id /\ hd_error (sb_ids bufs') = Some sb_core_id.
+Proof. exact sb_order_irrelevant. Qed.
+Print Assumptions c07_slice_blocks_order_irrelevant.
+
+(* bytes of the two fields: refused (InvalidInput) iff the count is not an i32; otherwise the
+   reader's read_itf8_as / read_block_content_ids read back count and ids and leave the rest *)
+Theorem c07_slice_block_fields_refused_iff : forall bufs,
+  sb_header_bytes bufs = None <-> (sb_i32_max < sb_count bufs)%N.
+Proof. exact sb_header_bytes_error_iff. Qed.
+Print Assumptions c07_slice_block_fields_refused_iff.
+
+Theorem c07_slice_block_fields_read_back : forall bufs bs rest,
+  Forall (fun b => (fst b < 4294967296)%N) bufs ->
+  sb_header_bytes bufs = Some bs ->
+  sb_read_header (bs ++ rest) = Some (sb_count bufs, sb_ids bufs, rest).
+Proof. exact sb_header_read_back. Qed.
+Print Assumptions c07_slice_block_fields_read_back.
